@@ -36,8 +36,9 @@ package header
 //@   modifies $now, VerifyError.SoftFailure
 //@   ensures [C02] empty: len(untrstdRange) == 0 ==> result1 != nil && errors.Is(result1, ErrEmptyRange) && len(result0) == 0
 //@   ensures [C02] prefix: len(result0) <= len(untrstdRange) && forall k int :: 0 <= k && k < len(result0) ==> result0[k] == old(untrstdRange[k])
-//@   ensures [C02] verified: forall k int :: 0 <= k && k < len(result0) ==> passedVerify(ite(k == 0, trstd, old(untrstdRange[k-1])), old(untrstdRange[k]))
-//@   ensures [C02] adjacent: forall k int :: 1 <= k && k < len(result0) ==> old(untrstdRange[k]).Height() == old(untrstdRange[k-1]).Height() + 1
+//@   ensures [C02] verified-first: len(result0) >= 1 ==> passedVerify(trstd, old(untrstdRange[0]))
+//@   ensures [C02] verified-step: forall i int, j int @ old(untrstdRange[i]), old(untrstdRange[j]) :: 0 <= i && j == i + 1 && j < len(result0) ==> passedVerify(old(untrstdRange[i]), old(untrstdRange[j]))
+//@   ensures [C02] adjacent: forall i int, j int @ old(untrstdRange[i]), old(untrstdRange[j]) :: 0 <= i && j == i + 1 && j < len(result0) ==> old(untrstdRange[j]).Height() == old(untrstdRange[i]).Height() + 1
 //@   ensures [C02] adjacent-closed: forall k int :: 0 <= k && k < len(result0) ==> old(untrstdRange[k]).Height() == old(untrstdRange[0]).Height() + k
 //@   ensures [C02] nil-iff-whole: result1 == nil <==> (len(result0) == len(untrstdRange) && len(untrstdRange) > 0)
 //@   ensures [C02] error-is-verr: result1 != nil ==> asVerr(result1) != nil
@@ -49,8 +50,9 @@ package header
 //@   invariant frame: unchanged("elems(H)") && unchanged("VerifyError.Reason")
 //@   invariant input: forall k int :: 0 <= k && k < len(untrstdRange) ==> untrstdRange[k] == old(untrstdRange[k])
 //@   invariant copied: forall k int :: 0 <= k && k <= rangeindex ==> verified[k] == old(untrstdRange[k])
-//@   invariant passed: forall k int :: 0 <= k && k <= rangeindex ==> passedVerify(ite(k == 0, old(trstd), old(untrstdRange[k-1])), old(untrstdRange[k]))
-//@   invariant adjacent: forall k int :: 1 <= k && k <= rangeindex ==> old(untrstdRange[k]).Height() == old(untrstdRange[k-1]).Height() + 1
+//@   invariant passed-first: rangeindex >= 0 ==> passedVerify(old(trstd), old(untrstdRange[0]))
+//@   invariant passed-step: forall i int, j int @ old(untrstdRange[i]), old(untrstdRange[j]) :: 0 <= i && j == i + 1 && j <= rangeindex ==> passedVerify(old(untrstdRange[i]), old(untrstdRange[j]))
+//@   invariant adjacent: forall i int, j int @ old(untrstdRange[i]), old(untrstdRange[j]) :: 0 <= i && j == i + 1 && j <= rangeindex ==> old(untrstdRange[j]).Height() == old(untrstdRange[i]).Height() + 1
 //@   invariant adjacent-closed: forall k int :: 0 <= k && k <= rangeindex ==> old(untrstdRange[k]).Height() == old(untrstdRange[0]).Height() + k
 //@   decreases len(untrstdRange) - rangeindex
 
